@@ -113,6 +113,17 @@ pub fn draw_qcfg(max_size_log2: u64) -> QCfg {
     }
 }
 
+/// Platform sharing mode: two thirds of the runs bounce every buffer (device address space
+/// disjoint from the caller's buffers), one third shares in place (the device reads and writes
+/// the caller's buffer itself, as on identity-mapped platforms).
+pub fn draw_sharing_mode() {
+    let direct = flip(1, 3);
+    with(|w| w.hal.bounce = !direct);
+    if direct {
+        probe("in_place_sharing");
+    }
+}
+
 pub fn draw_device_policy() {
     let serve = if flip(1, 3) { ServePolicy::Poll } else { ServePolicy::NotifyOnly };
     let suppress = if flip(1, 2) { Suppress::WhileBusy } else { Suppress::Never };
@@ -509,7 +520,8 @@ impl Harness {
         {
             let s = &self.outstanding[pos];
             for (b, o) in s.outputs.iter().zip(s.out_orig.iter()) {
-                if b[..] != o[..] {
+                // (with in-place sharing the device legitimately writes the buffer itself)
+                if b[..] != o[..] && with(|w| w.hal.bounce) {
                     violation("buffer-touched-early", "pop_used", "a device-writable caller buffer changed before its completion was consumed".into());
                 }
             }
@@ -826,6 +838,7 @@ impl Harness {
 pub fn history() {
     let c = draw_qcfg(if crate::runner::tier() == crate::runner::Tier::Thorough { 15 } else { 10 });
     draw_device_policy();
+    draw_sharing_mode();
     let n_ops = 10 + choose(if c.size <= 16 { 300 } else { 120 });
     oplog(|| format!("config {c:?} policy {:?} ops {n_ops}", with(|w| (w.cfg.serve, w.cfg.suppress, w.cfg.in_order))));
     let Some(mut h) = Harness::new(c) else { return };
